@@ -75,9 +75,12 @@ def run_assign(case, workdir=None, keep=False):
                              "feats": [float(r["rank"]), float(-r["rank"])]})
             key = ("ScanNr", "ret_time", "ExpMass") if case.get("key_rt") else ("ScanNr", "ExpMass")
             df = mk.build_table(rows, label_enc=case.get("label_enc", "1/-1"), extra_levels=extra, key_cols=key,
-                                missing_rt=case.get("key_rt") == "missing", int_mass=bool(case.get("int_mass")))
+                                missing_rt=case.get("key_rt") == "missing",
+                                int_mass=bool(case.get("int_mass") or case.get("odd_names")))      # (pairs of spectra share the scan number)
+            # odd_names: spectrum-key / level columns whose names are not Python identifiers
+            rn = {"ExpMass": "Exp Mass", "ret_time": "ret-time"} if case.get("odd_names") else None
             ds = mk.make_dataset(df, wd / ("in%d.%s" % (c, case.get("fmt", "pin"))), extra_levels=extra, key_cols=key,
-                                 row_group=case.get("row_group"))
+                                 row_group=case.get("row_group"), rename=rn)
             dsets.append(ds)
             scores.append(np.array([r["s4"] / 4.0 for r in coll["rows"]], dtype=float))
         prefixes = case.get("prefixes") or [None] * len(dsets)
